@@ -2,6 +2,7 @@
 # ./run.sh <ID> <quick|thorough|replay> [path]   — see DESIGN.md §2.3
 set -u
 cd "$(dirname "$0")"
+export VERIF_ROOT="$(pwd)"
 export GOFLAGS=-mod=mod GOPROXY=off GOSUMDB=off GOTOOLCHAIN=local
 export PATH="$PATH:/usr/local/go/bin"
 ID="${1:?check id}"; TIER="${2:-quick}"
@@ -31,5 +32,6 @@ else
 fi
 # keep the build cache bounded
 sz=$(du -sm "${GOCACHE:-$HOME/.cache/go-build}" 2>/dev/null | cut -f1)
-if [ -n "$sz" ] && [ "$sz" -gt 8000 ]; then go clean -cache >/dev/null 2>&1; fi
+# (never while another go command is running: cleaning under a running build breaks it)
+if [ -n "$sz" ] && [ "$sz" -gt 20000 ] && ! pgrep -x go >/dev/null 2>&1; then go clean -cache >/dev/null 2>&1; fi
 exit $rc
